@@ -378,6 +378,27 @@ pub async fn scenario_c08() {
 		let reply = format!("{{\"jsonrpc\":\"2.0\",\"id\":{id},\"result\":false}}");
 		singles.push((id, format!("{{\"jsonrpc\":\"2.0\",\"id\":{id},\"method\":\"unsub\",\"params\":[12345]}}").into_bytes(), reply.len(), "unsub-false".to_string(), false));
 	}
+	// subscribe calls (WebSocket only): the response that accepts a subscription carries the subscription id - here a
+	// string id around the limit, dealt by the server's id provider - and the response that rejects one carries the
+	// handler's error object with data
+	let mut sub_accept_id: Option<String> = None;
+	if !tiny && rt::chance("subscribe_replies", 1, 3) {
+		let delta = rt::draw("sub_delta", 7) as i64 - 3;
+		let target = (l as i64 + delta) as usize;
+		if rt::chance("reject_or_accept", 1, 2) {
+			let id = 9u64;
+			let overhead = format!("{{\"jsonrpc\":\"2.0\",\"id\":{id},\"error\":{{\"code\":-32053,\"message\":\"rejected\",\"data\":\"\"}}}}").len();
+			let n = target.saturating_sub(overhead);
+			singles.push((id, format!("{{\"jsonrpc\":\"2.0\",\"id\":{id},\"method\":\"rsub\",\"params\":[{n}]}}").into_bytes(), overhead + n, "sub-reject".to_string(), true));
+		} else {
+			let id = 10u64;
+			let overhead = format!("{{\"jsonrpc\":\"2.0\",\"id\":{id},\"result\":\"\"}}").len();
+			let n = target.saturating_sub(overhead).max(1);
+			let sub_id = "s".repeat(n);
+			singles.push((id, format!("{{\"jsonrpc\":\"2.0\",\"id\":{id},\"method\":\"sub\",\"params\":[5]}}").into_bytes(), overhead + n, format!("sub-accept:{sub_id}"), false));
+			sub_accept_id = Some(sub_id);
+		}
+	}
 	// a batch whose total straddles the limit
 	let n_entries = rt::draw_range("n_entries", 1, 5) as usize;
 	let mut entries: Vec<(u64, Vec<u8>, usize)> = Vec::new();
@@ -426,6 +447,9 @@ pub async fn scenario_c08() {
 		let mut list: Vec<Vec<u8>> = singles.iter().map(|s| s.1.clone()).collect();
 		list.push(batch_text.clone().into_bytes());
 		list.push(len_call(999, 60));
+		if let Some(sub_id) = &sub_accept_id {
+			world.ids.queue.lock().unwrap().push(jsonrpsee_types::SubscriptionId::Str(sub_id.clone().into()));
+		}
 		let (frames, _alive) = ws_exchange(&mut world, &format!("w{wi}"), list, false).await;
 		// HTTP: directly at the tower service, or over a connection (which, for the low-level assembly, goes through
 		// `http::call_with_service_builder`)
@@ -444,7 +468,7 @@ pub async fn scenario_c08() {
 		let http_batch = http_post(&mut world, batch_text.clone().into_bytes(), format!("hb{wi}")).await;
 		let mut http_singles = Vec::new();
 		for (k, s) in singles.iter().enumerate() {
-			if s.3 == "unsub-false" {
+			if s.3 == "unsub-false" || s.3.starts_with("sub-") {
 				// (subscription methods are not served over HTTP: the answer would be the library's fixed "Internal
 				// error" object, which is larger than these tiny limits - limits below the size of the library's own
 				// error objects are otherwise not generated)
@@ -457,18 +481,25 @@ pub async fn scenario_c08() {
 		// --- wire-length monitor ---
 		let too_big = |f: &[u8]| matches!(parse_response(f), Ok((_, Err(-32008))) | Ok((_, Err(-32011))));
 		for f in frames.iter().chain(std::iter::once(&http_batch.body)).chain(http_singles.iter().map(|r| &r.body)) {
-			if f.len() > l && !too_big(f) {
+			// (the limit concerns responses: a subscription's notifications are not replies)
+			let notification = serde_json::from_slice::<Value>(f).ok().is_some_and(|v| v.get("method").is_some());
+			if f.len() > l && !too_big(f) && !notification {
 				// one of the library's own fixed error objects (no handler data) above a limit that is smaller than they are
 				// one of the library's own error objects (no handler data): they are built without looking at the limit
 				let fixed_error = matches!(parse_response(f), Ok((_, Err(-32603 | -32600 | -32601 | -32602 | -32700)))) && !String::from_utf8_lossy(f).contains("\"data\"");
-				rt::violate(P, "oversized-reply-sent", if fixed_error { "library-error-not-bounded".to_string() } else { format!("{entry:?}") }, format!("a reply of {} bytes was sent although max_response_body_size is {resp_limit}: {}...", f.len(), String::from_utf8_lossy(f).chars().take(100).collect::<String>()));
+				let sub_kind = match parse_response(f) {
+					Ok((i, _)) if i == json!(9) && singles.iter().any(|s| s.3 == "sub-reject") => ":subscribe-rejected",
+					Ok((i, _)) if i == json!(10) && singles.iter().any(|s| s.3.starts_with("sub-accept:")) => ":subscribe-accepted",
+					_ => "",
+				};
+				rt::violate(P, "oversized-reply-sent", if fixed_error { "library-error-not-bounded".to_string() } else { format!("{entry:?}{sub_kind}") }, format!("a reply of {} bytes was sent although max_response_body_size is {resp_limit}: {}...", f.len(), String::from_utf8_lossy(f).chars().take(100).collect::<String>()));
 			}
 		}
 		// --- singles ---
 		for (k, (id, _m, len, blob, is_err)) in singles.iter().enumerate() {
 			let long_id = blob.strip_prefix("long-id:");
 			for (transport, reply) in [("ws", frames.iter().find(|f| matches!(parse_response(f), Ok((i, _)) if i == json!(*id) || long_id.is_some_and(|s| i == json!(s)))).cloned()), ("http", Some(http_singles[k].body.clone()))] {
-				if blob == "unsub-false" && transport == "http" {
+				if (blob == "unsub-false" || blob.starts_with("sub-")) && transport == "http" {
 					continue;
 				}
 				let Some(reply) = reply else {
@@ -481,6 +512,8 @@ pub async fn scenario_c08() {
 					// fits (exactly at the limit included): sent unchanged
 					let unchanged = match (&parsed, is_err) {
 						(Ok((_, Ok(v))), false) if blob == "unsub-false" => *v == json!(false) && reply.len() == *len,
+						(Ok((_, Ok(v))), false) if blob.starts_with("sub-accept:") => v.as_str() == blob.strip_prefix("sub-accept:") && reply.len() == *len,
+						(Ok((_, Err(c))), true) if blob == "sub-reject" => *c == -32053 && reply.len() == *len,
 						(Ok((_, Ok(v))), false) => v.as_str() == Some(blob.as_str()) && reply.len() == *len,
 						(Ok((_, Err(c))), true) if blob == "panic" => *c == -32603 && reply.len() == *len,
 						(Ok((_, Err(c))), true) if blob == "failmsg" => *c == -32052 && reply.len() == *len,
